@@ -1160,12 +1160,288 @@ UNIT8_CLASSES = ["BrightnessContrast", "ColorBalance", "ColorLookup", "ChannelMi
                  "SelectiveColor"]
 
 
+
+# ---------------------------------------------------------------------------------------------
+# unit 9: vector data
+# ---------------------------------------------------------------------------------------------
+FP = 0x01000000
+
+
+def path_item_tokens(it):
+    nm = type(it).__name__
+    if nm == "PathFillRule":
+        return ["0"]
+    if nm == "InitialFillRule":
+        return ["1", *row(it.value)]
+    if nm == "ClipboardRecord":
+        return ["2", *row(*[fixed(v, FP) for v in (it.top, it.left, it.bottom, it.right, it.resolution)])]
+    sel = getattr(type(it), "selector", None)
+    if sel is None:
+        raise NotRep("path record of class %s has no selector (not registered)" % nm)
+    if nm in ("ClosedKnotLinked", "ClosedKnotUnlinked", "OpenKnotLinked", "OpenKnotUnlinked"):
+        vals = tuple(it.preceding) + tuple(it.anchor) + tuple(it.leaving)
+        return ["3", t_nat(sel), *row(*[fixed(v, FP) for v in vals])]
+    if nm in ("ClosedPath", "OpenPath"):
+        return ["4", t_nat(sel), *row(it.operation, it._unknown1, it._unknown2, it.index, it._unknown3), *t_list(list(it), path_item_tokens)]
+    raise NotRep("not a path record: " + nm)
+
+
+def gen_knot(rng, K=None):
+    V = _VEC()
+    K = K or rng.choice([V.ClosedKnotLinked, V.ClosedKnotUnlinked, V.OpenKnotLinked, V.OpenKnotUnlinked])
+    pt = lambda: tuple(v / FP for v in sints(rng, 4, 2))
+    return K(pt(), pt(), pt())
+
+
+def gen_subpath(rng, n=None, nested=False):
+    V = _VEC()
+    K = rng.choice([V.ClosedPath, V.OpenPath])
+    items = [gen_knot(rng) for _ in range(rng.choice([0, 1, 3, 4]) if n is None else n)]
+    if nested:
+        items.insert(rng.randrange(len(items) + 1), gen_subpath(rng, 1))
+        items.append(V.PathFillRule())
+    return K(items, operation=sints(rng, 2, 1)[0], unknown1=ints(rng, 2, 1)[0], unknown2=ints(rng, 4, 1)[0], index=ints(rng, 4, 1)[0],
+             unknown3=bytes(rng.randrange(256) for _ in range(10)))
+
+
+def gen_path_items(rng, n=None):
+    V = _VEC()
+    out = []
+    for _ in range(rng.choice([0, 1, 2, 4]) if n is None else n):
+        c = rng.random()
+        if c < 0.15:
+            out.append(V.PathFillRule())
+        elif c < 0.3:
+            out.append(V.InitialFillRule(ints(rng, 2, 1)[0]))
+        elif c < 0.4:
+            out.append(V.ClipboardRecord(*[v / FP for v in sints(rng, 4, 5)]))
+        elif c < 0.5:
+            out.append(gen_knot(rng))
+        else:
+            out.append(gen_subpath(rng, nested=rng.random() < 0.15))
+    return out
+
+
+def gen_paths(rng, quick):
+    V = _VEC()
+    K = V.Path
+    out = [("boundary", K([])), ("boundary", K([V.PathFillRule(), V.InitialFillRule(1), gen_subpath(rng, 4)])),
+           ("boundary", K([gen_subpath(rng, 2, nested=True)]))]
+    out += [("generated", K(gen_path_items(rng))) for _ in range(8 if quick else 150)]
+    bad = gen_subpath(rng, 1)
+    bad._unknown3 = b"\x01\x02"
+    out += [("excluded", K([bad])), ("breaking", K([V.InitialFillRule(65536)])), ("breaking", K([V.ClipboardRecord(128.0, 0, 0, 0, 0)]))]
+    bad = gen_subpath(rng, 1)
+    bad.operation = 32768
+    out.append(("breaking", K([bad])))
+    return out
+
+
+def path_excluded(items):
+    for it in items:
+        if type(it).__name__ in ("ClosedPath", "OpenPath"):
+            if len(it._unknown3) != 10:
+                return "10s-field-not-10-bytes"
+            why = path_excluded(list(it))
+            if why:
+                return why
+    return None
+
+
+def vms_tokens(x):
+    return [*row(x.version, x.flags), *t_list(list(x.path), path_item_tokens)]
+
+
+def gen_vms(rng, quick):
+    V = _VEC()
+    K = V.VectorMaskSetting
+    out = [("boundary", K(3, 0, V.Path([]))), ("boundary", K(3, 2 ** 32 - 1, V.Path([V.PathFillRule(), V.InitialFillRule(0), gen_subpath(rng, 3)])))]
+    out += [("generated", K(3, rng.choice([0, 1, 2, 4, 7]), V.Path(gen_path_items(rng)))) for _ in range(6 if quick else 100)]
+    out += [("excluded", K(2, 0, V.Path([]))), ("breaking", K(3, 2 ** 32, V.Path([])))]
+    return out
+
+
+def vscs_tokens(x):
+    import desc_common as dc
+    try:
+        return [t_bytes(x.key), dc.block_tokens(x, 1)]
+    except dc.NotRep as e:
+        raise NotRep(str(e))
+
+
+def gen_vscs(rng, quick):
+    K = _VEC().VectorStrokeContentSetting
+    out = []
+    for _ in range(6 if quick else 100):
+        b = gen_desc_block(rng)
+        out.append(("generated", K(b._items, name=b.name, classID=b.classID, key=rng.choice([b"\x00\x00\x00\x00", b"vscg", b"SoCo"]),
+                                   version=rng.choice([0, 1, 16, 2 ** 32 - 1]))))
+    b = gen_desc_block(rng)
+    out.append(("excluded", K(b._items, name=b.name, classID=b.classID, key=b"ab", version=1)))
+    out.append(("breaking", K(b._items, name=b.name, classID=b.classID, key=b"vscg", version=2 ** 32)))
+    return out
+
+
+def unit9_specs():
+    V = _VEC
+    return [
+        PairSpec("Path", lambda: V().Path, lambda x: t_list(list(x), path_item_tokens), gen_paths, excluded=lambda x: path_excluded(list(x)),
+                 at_end=True, pads=[(1, 4, None), (1, 1, None)], offsets=(0, 1, 2, 4, 25, 26, 27, 28, 52)),
+        PairSpec("VectorMaskSetting", lambda: V().VectorMaskSetting, vms_tokens, gen_vms,
+                 excluded=lambda x: ("version-not-3" if x.version != 3 else path_excluded(list(x.path))), at_end=True,
+                 offsets=(0, 3, 4, 7, 8, 9, 10, 33, 34)),
+        PairSpec("VectorStrokeContentSetting", lambda: V().VectorStrokeContentSetting, vscs_tokens, gen_vscs,
+                 excluded=lambda x: ("4s-field-not-4-bytes" if len(x.key) != 4 else desc_excluded(x)),
+                 pads=[(1, 4, None), (1, 1, None)], offsets=(0, 3, 4, 7, 8, 12, 16)),
+    ]
+
+
+UNIT9_CLASSES = ["Path", "Subpath", "Knot", "ClosedPath", "OpenPath", "ClosedKnotLinked", "ClosedKnotUnlinked", "OpenKnotLinked",
+                 "OpenKnotUnlinked", "PathFillRule", "ClipboardRecord", "InitialFillRule", "VectorMaskSetting", "VectorStrokeContentSetting"]
+
+
+# ---------------------------------------------------------------------------------------------
+# unit 10: filter effects
+# ---------------------------------------------------------------------------------------------
+def fe_channel_tokens(c):
+    if c.compression is None:
+        if c.data not in (b"", None):
+            raise NotRep("channel data without a compression (not stored)")
+        return [t_nat(c.is_written), "0"]
+    return [t_nat(c.is_written), "1", t_nat(c.compression), t_bytes(c.data)]
+
+
+def fe_channel_excluded(c):
+    return "content-in-a-channel-that-is-not-written" if (c.is_written == 0 and c.compression is not None) else None
+
+
+def fe_extra_tokens(e):
+    return [t_nat(e.is_written), *row(*list(e.rectangle)), t_nat(e.compression), t_bytes(e.data)]
+
+
+def fe_extra_excluded(e):
+    if e.is_written == 0 and (list(e.rectangle) != [0, 0, 0, 0] or e.compression != 0 or e.data != b""):
+        return "content-in-an-extra-that-is-not-written"
+    return None
+
+
+def fe_tokens(x):
+    if not isinstance(x.uuid, str):
+        raise NotRep("uuid is not a str")
+    try:
+        uuid = hx(x.uuid.encode("ascii"))
+    except UnicodeError:
+        raise NotRep("uuid is not ASCII")
+    if x.rectangle is None or x.channels is None:
+        raise NotRep("a field the writer dereferences is None (TypeError, outside the model)")
+    return [uuid, *row(x.version), *row(*tuple(x.rectangle)), *row(x.depth, x.max_channels), *t_list(list(x.channels), fe_channel_tokens),
+            *t_opt(x.extra, fe_extra_tokens)]
+
+
+def fe_excluded(x):
+    if x.version > 1:
+        return "version-above-1"
+    if len(x.channels) != x.max_channels + 2:
+        return "max_channels-does-not-match-channels"
+    for c in x.channels:
+        if fe_channel_excluded(c):
+            return fe_channel_excluded(c)
+    return fe_extra_excluded(x.extra) if x.extra is not None else None
+
+
+def gen_fe_channel(rng):
+    F = _FE()
+    c = rng.random()
+    if c < 0.2:
+        return F.FilterEffectChannel(0)
+    if c < 0.35:
+        return F.FilterEffectChannel(rng.choice([1, 2 ** 32 - 1]))
+    return F.FilterEffectChannel(rng.choice([1, 2, 2 ** 32 - 1]), rng.choice([0, 1, 65535]), bytes(rng.randrange(256) for _ in range(rng.choice([0, 1, 5, 40]))))
+
+
+def gen_fe_extra(rng):
+    F = _FE()
+    if rng.random() < 0.3:
+        return F.FilterEffectExtra(0)
+    return F.FilterEffectExtra(rng.choice([1, 255]), sints(rng, 4, 4), rng.choice([0, 1, 65535]), bytes(rng.randrange(256) for _ in range(rng.choice([0, 3, 30]))))
+
+
+def gen_fe(rng, nch=None):
+    F = _FE()
+    n = rng.choice([0, 1, 3]) if nch is None else nch
+    return F.FilterEffect(rng.choice(["", "5a96c404-ab9c-1177-97ef-96ca454b82b7", "u" * 255]), rng.choice([0, 1]), tuple(sints(rng, 4, 4)),
+                          rng.choice([8, 16, 2 ** 32 - 1]), n, [gen_fe_channel(rng) for _ in range(n + 2)],
+                          gen_fe_extra(rng) if rng.random() < 0.6 else None)
+
+
+def gen_fes(rng, quick):
+    F = _FE()
+    K = F.FilterEffects
+    out = [("boundary", K([], version=1)), ("boundary", K([gen_fe(rng, 0)], version=3))]
+    out += [("generated", K([gen_fe(rng) for _ in range(rng.choice([1, 2, 3]))], version=rng.choice([1, 2, 3]))) for _ in range(6 if quick else 120)]
+    bad = gen_fe(rng, 1)
+    bad.channels = bad.channels[:2]
+    out.append(("excluded", K([bad], version=1)))
+    bad = gen_fe(rng, 1)
+    bad.version = 2
+    out.append(("excluded", K([bad], version=1)))
+    out.append(("excluded", K([], version=4)))
+    out.append(("excluded", K([], version=0)))
+    bad = gen_fe(rng, 0)
+    bad.channels = [F.FilterEffectChannel(0, 1, b"x"), F.FilterEffectChannel(0)]
+    out.append(("excluded", K([bad], version=1)))
+    bad = gen_fe(rng, 0)
+    bad.extra = F.FilterEffectExtra(0, [1, 2, 3, 4], 0, b"")
+    out.append(("excluded", K([bad], version=1)))
+    bad = gen_fe(rng, 0)
+    bad.depth = 2 ** 32
+    out.append(("breaking", K([bad], version=1)))
+    bad = gen_fe(rng, 0)
+    bad.uuid = "u" * 256
+    out.append(("breaking", K([bad], version=1)))
+    return out
+
+
+def fes_excluded(x):
+    if x.version not in (1, 2, 3):
+        return "version-not-1-2-3"
+    for it in x:
+        why = fe_excluded(it)
+        if why:
+            return why
+    return None
+
+
+def unit10_specs():
+    F = _FE
+    no_kw = lambda v, pad: {}
+    return [
+        PairSpec("FilterEffectChannel", lambda: F().FilterEffectChannel, fe_channel_tokens,
+                 lambda r, q: [("generated", gen_fe_channel(r)) for _ in range(8 if q else 100)]
+                 + [("excluded", F().FilterEffectChannel(0, 1, b"ab")), ("breaking", F().FilterEffectChannel(2 ** 32)), ("breaking", F().FilterEffectChannel(1, 65536, b""))],
+                 excluded=fe_channel_excluded, offsets=(0, 3, 4, 11, 12, 13, 14)),
+        PairSpec("FilterEffectExtra", lambda: F().FilterEffectExtra, fe_extra_tokens,
+                 lambda r, q: [("generated", gen_fe_extra(r)) for _ in range(8 if q else 100)]
+                 + [("excluded", F().FilterEffectExtra(0, [1, 0, 0, 0])), ("breaking", F().FilterEffectExtra(256)), ("breaking", F().FilterEffectExtra(1, [0, 0, 0]))],
+                 excluded=fe_extra_excluded, write_kw=no_kw, offsets=(0, 1, 16, 17, 24, 25, 26)),
+        PairSpec("FilterEffect", lambda: F().FilterEffect, fe_tokens,
+                 lambda r, q: [("generated", gen_fe(r)) for _ in range(8 if q else 100)], excluded=fe_excluded, at_end=True,
+                 offsets=(0, 1, 4, 5, 12, 13, 28, 36, 37)),
+        PairSpec("FilterEffects", lambda: F().FilterEffects, lambda x: [*row(x.version), *t_list(list(x), fe_tokens)], gen_fes,
+                 excluded=fes_excluded, at_end=True, offsets=(0, 3, 4, 11, 12, 13, 16, 17)),
+    ]
+
+
+UNIT10_CLASSES = ["FilterEffects", "FilterEffect", "FilterEffectChannel", "FilterEffectExtra"]
+
+
 def dat_instances():
     """instances parsed from the payload files of the repo's own tests (tests/image_resources, tests/tagged_blocks)"""
     out = collections.defaultdict(list)
     root = core.REPO / "tests"
     for K, rel, kw in ((_IR().Slices, "image_resources/slices_0.dat", {}), (_ADJ().Curves, "tagged_blocks/curves.dat", {}),
-                       (_ADJ().Curves, "tagged_blocks/curves_2.dat", {})):
+                       (_ADJ().Curves, "tagged_blocks/curves_2.dat", {}), (_FE().FilterEffects, "tagged_blocks/filter_effects_1.dat", {}),
+                       (_FE().FilterEffects, "tagged_blocks/filter_effects_2.dat", {})):
         try:
             out[K].append(K.frombytes((root / rel).read_bytes(), **kw))
         except Exception:  # noqa
@@ -1176,7 +1452,7 @@ def dat_instances():
 # ---------------------------------------------------------------------------------------------
 # the check
 # ---------------------------------------------------------------------------------------------
-MODEL_CLASSES = list(UNIT7_CLASSES) + UNIT8_CLASSES
+MODEL_CLASSES = list(UNIT7_CLASSES) + UNIT8_CLASSES + UNIT9_CLASSES + UNIT10_CLASSES
 
 
 def run_units3(ctx, specs, sink, seen_cls, fail_cls, excluded_log, label):
@@ -1238,6 +1514,8 @@ def _run(ctx):
     run_units3(ctx, unit8_specs(), sink, seen_cls, fail_cls, excluded_log, "unit8")
     seen_cls["CurvesExtraMarker"] += seen_cls.get("Curves", 0)
     seen_cls["CurvesExtraItem"] += seen_cls.get("Curves", 0)
+    run_units3(ctx, unit9_specs(), sink, seen_cls, fail_cls, excluded_log, "unit9")
+    run_units3(ctx, unit10_specs(), sink, seen_cls, fail_cls, excluded_log, "unit10")
     ctx.extra["payload3_points_excluded_by_WF (information; format-excluded, see notes)"] = dict(excluded_log)
 
     cov = ctx.model_coverage if isinstance(ctx.model_coverage, dict) else {}
